@@ -121,6 +121,45 @@ func genC10Facts() (string, string) {
 	} {
 		fmt.Fprintf(&b, "def %s : String := %s\n", e.name, leanStr(e.body))
 	}
+	// ---- the glue around the two checks (round 5): which option guards which check, in which function, and what the
+	// option copies handed to included / extended files change
+	lf := parse("loader/loader.go")
+	fmt.Fprintf(&b, "def c10_body_clone : String := %s\n", leanStr(funcBody(lf, "Options", "clone")))
+	b.WriteString("/-- `if !opts.SkipX { … }` statements of the load pipeline that contain one of the checks: (function, condition, checks called inside, in order) -/\ndef c10_checkGuards : List (String × String × List String) := [")
+	first := true
+	for _, fn := range []string{"loadYamlModel", "loadYamlFile", "modelToProject"} {
+		for _, g := range guardedChecks(lf, fn) {
+			if !first {
+				b.WriteString(", ")
+			}
+			first = false
+			fmt.Fprintf(&b, "\n  (%s, %s, [%s])", leanStr(fn), leanStr(g.cond), joinLean(g.calls))
+		}
+	}
+	b.WriteString("]\n")
+	b.WriteString("/-- every call of a check in those functions (guarded or not), in source order -/\n")
+	var allCalls []string
+	for _, fn := range []string{"loadYamlModel", "loadYamlFile", "modelToProject"} {
+		for _, c := range checkCalls(lf, fn) {
+			allCalls = append(allCalls, fn+":"+c)
+		}
+	}
+	fmt.Fprintf(&b, "def c10_checkCalls : List String := [%s]\n", joinLean(allCalls))
+	for _, e := range []struct{ name, file, fn, v string }{
+		{"c10_includeOptWrites", "loader/include.go", "ApplyInclude", "loadOptions"},
+		{"c10_extendsOptWrites", "loader/extends.go", "getExtendsBaseFromFile", "extendsOpts"},
+	} {
+		init, ws := optWrites(parse(e.file), e.fn, e.v)
+		fmt.Fprintf(&b, "/-- %s %s: how `%s` is created and the boolean fields written afterwards, in source order -/\ndef %s : String × List (String × String) := (%s, [",
+			e.file, e.fn, e.v, e.name, leanStr(init))
+		for i, w := range ws {
+			if i > 0 {
+				b.WriteString(", ")
+			}
+			fmt.Fprintf(&b, "(%s, %s)", leanStr(w[0]), leanStr(w[1]))
+		}
+		b.WriteString("])\n")
+	}
 	b.WriteString("\nend CV.Gen\n")
 	fmt.Fprintf(logw, "C10 facts: %d error sites in checkConsistency, %d case lists\n", len(sites), len(cases))
 	return "C10Facts.lean", b.String()
@@ -132,4 +171,104 @@ func quoteAll(l []string) []string {
 		q = append(q, leanStr(s))
 	}
 	return q
+}
+
+var c10CheckNames = map[string]bool{"validation.Validate": true, "schema.Validate": true, "checkConsistency": true}
+
+type guardedCheck struct {
+	cond  string
+	calls []string
+}
+
+func c10FindFunc(f *ast.File, fn string) *ast.FuncDecl {
+	for _, d := range f.Decls {
+		if fd, ok := d.(*ast.FuncDecl); ok && fd.Name.Name == fn && fd.Recv == nil {
+			return fd
+		}
+	}
+	return nil
+}
+
+func checkCallsIn(n ast.Node) []string {
+	var out []string
+	ast.Inspect(n, func(n ast.Node) bool {
+		if call, ok := n.(*ast.CallExpr); ok && c10CheckNames[src(call.Fun)] {
+			out = append(out, src(call.Fun))
+		}
+		return true
+	})
+	return out
+}
+
+// checkCalls lists every call of one of the checks inside the function, in source order.
+func checkCalls(f *ast.File, fn string) []string {
+	fd := c10FindFunc(f, fn)
+	if fd == nil {
+		return []string{"missing:" + fn}
+	}
+	return checkCallsIn(fd.Body)
+}
+
+// guardedChecks lists, in source order, every place of the function (closures included) where one of the checks is called:
+// the condition of the outermost `if` whose body contains the call, or "<unguarded>".
+func guardedChecks(f *ast.File, fn string) []guardedCheck {
+	fd := c10FindFunc(f, fn)
+	if fd == nil {
+		return []guardedCheck{{cond: "missing:" + fn}}
+	}
+	var out []guardedCheck
+	ast.Inspect(fd.Body, func(n ast.Node) bool {
+		switch s := n.(type) {
+		case *ast.IfStmt:
+			if s.Init != nil {
+				if calls := checkCallsIn(s.Init); len(calls) > 0 {
+					out = append(out, guardedCheck{cond: "<unguarded>", calls: calls})
+					return false
+				}
+			}
+			if calls := checkCallsIn(s.Body); len(calls) > 0 {
+				out = append(out, guardedCheck{cond: src(s.Cond), calls: calls})
+				if s.Else != nil {
+					if calls := checkCallsIn(s.Else); len(calls) > 0 {
+						out = append(out, guardedCheck{cond: "else of " + src(s.Cond), calls: calls})
+					}
+				}
+				return false
+			}
+		case *ast.CallExpr:
+			if c10CheckNames[src(s.Fun)] {
+				out = append(out, guardedCheck{cond: "<unguarded>", calls: []string{src(s.Fun)}})
+			}
+		}
+		return true
+	})
+	return out
+}
+
+// optWrites returns the right-hand side that creates variable v inside fn and the `v.Field = true|false` statements that follow.
+func optWrites(f *ast.File, fn, v string) (string, [][2]string) {
+	fd := c10FindFunc(f, fn)
+	if fd == nil {
+		return "missing:" + fn, nil
+	}
+	init := "missing:" + v
+	var ws [][2]string
+	ast.Inspect(fd.Body, func(n ast.Node) bool {
+		as, ok := n.(*ast.AssignStmt)
+		if !ok || len(as.Lhs) != 1 || len(as.Rhs) != 1 {
+			return true
+		}
+		if id, ok := as.Lhs[0].(*ast.Ident); ok && id.Name == v && as.Tok == token.DEFINE {
+			init = src(as.Rhs[0])
+		}
+		if sel, ok := as.Lhs[0].(*ast.SelectorExpr); ok {
+			if id, ok := sel.X.(*ast.Ident); ok && id.Name == v {
+				if r, ok := as.Rhs[0].(*ast.Ident); ok && (r.Name == "true" || r.Name == "false") {
+					ws = append(ws, [2]string{sel.Sel.Name, r.Name})
+				}
+			}
+		}
+		return true
+	})
+	return init, ws
 }
